@@ -722,7 +722,16 @@ func varKey(o types.Object) string {
 			return true
 		})
 		for name, objs := range byName {
-			sort.Slice(objs, func(i, j int) bool { return objs[i].Pos() < objs[j].Pos() })
+			// the function's own declarations first (by position), then objects that reach the tree through a
+			// spliced-in helper (declared elsewhere in the file): a helper's parameter that happens to share the
+			// name of the caller's never takes the plain name away from it
+			own := func(o types.Object) bool { return fd.Pos() <= o.Pos() && o.Pos() < fd.End() }
+			sort.Slice(objs, func(i, j int) bool {
+				if oi, oj := own(objs[i]), own(objs[j]); oi != oj {
+					return oi
+				}
+				return objs[i].Pos() < objs[j].Pos()
+			})
 			for i, d := range objs {
 				if i == 0 {
 					m[d] = name
